@@ -13,6 +13,7 @@ import itertools
 import json
 import os
 import random
+import re
 import subprocess
 from collections import Counter
 
@@ -154,6 +155,32 @@ def gen_family(rng, fam, n):
         if info["used"] > 0:
             out.append((t, e, info))
     return out, tries
+
+
+_CONSTRUCTS = {
+    "front_matter_plus_plain_meta_line_in_body": re.compile(r"\A---\n.*?\n---\n.*^>>", re.S | re.M),
+    "number_led_text_value_with_percent_unit": re.compile(r"\{[^}%]*\d\s+[^\W\d][^}%]*%[^}]*\}"),
+    "unitless_quantity": re.compile(r"\{[^}%]*[^}%\s][^}%]*\}"),
+    "fraction_or_mixed_number": re.compile(r"\{[^}]*\d\s*/\s*\d[^}]*\}"),
+    "scaling_lock": re.compile(r"\{\s*="),
+    "cookware_quantity": re.compile(r"#[^@#~{\n]*\{[^}]*[^}\s][^}]*\}"),
+    "timer": re.compile(r"~[^@#~{\n]*\{"),
+    "note_after_component": re.compile(r"[}\w]\([^)\n]+\)"),
+    "single_word_component_then_punctuation": re.compile(r"[@#]\w+[,.;]"),
+    "escaped_character": re.compile(r"\\."),
+    "line_comment": re.compile(r"--"),
+    "block_comment": re.compile(r"\[-"),
+    "section_header": re.compile(r"^=", re.M),
+    "text_block": re.compile(r"^>(?!>)", re.M),
+    "old_style_metadata_line": re.compile(r"\A(?!---\n).*^>>", re.S | re.M),
+    "yaml_front_matter": re.compile(r"\A---\n"),
+    "name_with_digit_or_punctuation": re.compile(r"@[^@#~{\n]*[\d.&-][^@#~{\n]*\{"),
+}
+
+
+def construct_counts(texts):
+    """how many of the generated core recipes contain each core construct (measured on the text)"""
+    return {k: sum(1 for t in texts if rx.search(t)) for k, rx in _CONSTRUCTS.items()}
 
 
 def canon_of(r, which="first"):
@@ -343,6 +370,7 @@ def run(rep, tier, seed):
         "core_recipes_x_sets_bundled": len(core_ok) * len(sets),
         "core_recipes_x_sets_empty_converter": sum(len(groups["noadv"]) if info["timers"] else len(sets)
                                                    for _, _, info in core_ok),
+        "core_constructs": construct_counts([t for t, _, _ in core_ok]),
         "core_reading_mismatches_vs_generator": len(reading_mismatch),
         "core_reading_mismatch_samples": reading_mismatch[:3],
         "families": fam_stats,
